@@ -482,7 +482,7 @@ func TestVerifStackCorr(t *testing.T) {
 	}
 	opts.TLSCert = filepath.Join(certDir, "server.pem")
 	opts.TLSKey = filepath.Join(certDir, "server.key")
-	_, _, nsqd := mustStartNSQD(opts)
+	_, _, nsqd := vfStartNSQD(opts)
 	defer nsqd.Exit()
 	defer vfE1PanicGuard("a writer-stack call", out)()
 	hist := map[string]int{}
@@ -947,7 +947,7 @@ func TestVerifReidentify(t *testing.T) {
 			opts.TLSRequired = TLSRequired
 		}
 		opts.MsgTimeout = 10 * time.Minute
-		_, _, nsqd := mustStartNSQD(opts)
+		_, _, nsqd := vfStartNSQD(opts)
 		for round := 0; round < rounds; round++ {
 			var combos []vfE1SCombo
 			for _, tl := range []bool{false, true} {
